@@ -299,6 +299,14 @@ pub fn bp_variants(level: u8, seed: u64) -> Vec<BpOp> {
     for id in [0u8, 1, 127, 255] {
         v.push(BpOp::ShmemMap(id, pat64(90) >> 2, pat64(91) >> 2, pat64(92) >> 2 | 1, 1));
     }
+    // windows ending exactly at (and one byte below) the top of the 64-bit range, for each offset
+    for len in [1u64, 0x1000, 1 << 32, 1 << 63, u64::MAX - 1, u64::MAX] {
+        let top = u64::MAX - len;
+        for (fo, so) in [(top, 0), (0, top), (top, top), (top.saturating_sub(1), 0x1000.min(top)), (0x1000.min(top), top.saturating_sub(1))] {
+            v.push(BpOp::ShmemMap(3, fo, so, len, 1));
+            v.push(BpOp::ShmemUnmap(4, fo, so, len, 0));
+        }
+    }
     v
 }
 
